@@ -51,7 +51,12 @@ def run(ctx, rep):
         dm = m1("fmt", trait)
         t = {}
         if dm:
-            mt = tables.first_match(dm[1]["body"])
+            def namelike(m):
+                rs = tables.rows(m["arms"])
+                return len([1 for (p, b, g, ln) in rs if p[0] == "var" and b[0] == "macro" and b[1] == "write"]) >= 10
+            _e, _it, mt = tables.follow_match(ctx.ast, "Vehicle", dm[0], dm[1], namelike, crate="insim_core")
+            if mt is None:
+                mt = tables.first_match(dm[1]["body"])
             for (p, b, g, ln) in tables.rows(mt["arms"]) if mt else []:
                 if p[0] == "var" and b[0] == "macro" and b[1] == "write" and len(b[2]) >= 2 and b[2][1][0] == "str":
                     t[p[1]] = (b[2][1][1], ln, len(b[2]))
